@@ -12,12 +12,19 @@
 //! let _ = broadcast_queue_with::<usize, YieldingWait>(10, YieldingWait::new());
 //! let _ = broadcast_queue_with::<usize, BlockingWait>(10, BlockingWait::new());
 //! ```
+#[cfg(not(multiqueue2_verif))]
 use std::sync::atomic::AtomicUsize;
+#[cfg(multiqueue2_verif)]
+use crate::verif_hooks::{yield_now, AtomicUsize};
 use std::sync::atomic::Ordering::Relaxed;
+#[cfg(not(multiqueue2_verif))]
 use std::thread::yield_now;
 
 use crate::countedindex::{past, rm_tag};
+#[cfg(not(multiqueue2_verif))]
 extern crate parking_lot;
+#[cfg(multiqueue2_verif)]
+use crate::verif_hooks::pl as parking_lot;
 
 pub const DEFAULT_YIELD_SPINS: usize = 50;
 pub const DEFAULT_TRY_SPINS: usize = 50;
@@ -129,6 +136,8 @@ impl Wait for BusyWait {
     #[cold]
     fn wait(&self, seq: usize, w_pos: &AtomicUsize, wc: &AtomicUsize) {
         loop {
+            #[cfg(multiqueue2_verif)]
+            crate::verif_hooks::spin_loop();
             if check(seq, w_pos, wc) {
                 return;
             }
@@ -153,6 +162,8 @@ impl Wait for YieldingWait {
             }
         }
         loop {
+            #[cfg(multiqueue2_verif)]
+            crate::verif_hooks::spin_loop();
             yield_now();
             for _ in 0..self.spins_yield {
                 if check(seq, w_pos, wc) {
